@@ -23,7 +23,7 @@ CONSTANTS MaxFeatures,     \* optional features per program
 AllFeatures == {"steps", "comp", "cons", "lmi", "metrics", "part", "lmimetric", "unsent"}
 LmiSize(code) == CASE code = "L1" -> 1 [] code = "S3" -> 3 [] OTHER -> 2
 ConsCodes == {"pi", "pe", "pg", "pm", "pd", "fi", "ci", "dup", "dupf", "se"}   \* se: a direction of prescribed small size |e|^2 = 1/4096; dup: the SAME constraint object declared twice
-LmiCodes == {"S2", "D2", "L1", "N2", "S3", "F2", "V2", "B2"}   \* B2 declares TWO matrices (a re-used numpy buffer)
+LmiCodes == {"S2", "D2", "L1", "N2", "S3", "F2", "V2", "B2", "Z2"}   \* Z2: an entry whose mirrored inner-product key carries an explicit zero;   \* B2 declares TWO matrices (a re-used numpy buffer)
 ClassLmis(c) == IF c \in {4, 6, 7} THEN 1 ELSE IF c = 8 THEN 2 ELSE 0
 VARIABLES prog, solves, phase, epoch, sent, native, dualpos, cache, nClassLmi, nPartRows, hist
 vars == <<prog, solves, phase, epoch, sent, native, dualpos, cache, nClassLmi, nPartRows, hist>>
@@ -79,11 +79,11 @@ RECURSIVE Walk(_, _, _)
 Walk(s, k, counter) == IF k > Len(s) THEN <<>> ELSE
    <<counter>> \o Walk(s, k + 1, IF s[k].k = "sc" THEN counter + 1
                                  ELSE counter + 1 + (IF DevSkip THEN s[k].n * s[k].n - 1 ELSE s[k].n * s[k].n))
-Edits == [metric |-> Cardinality({i \in 1..Len(solves) : solves[i].edit = "metric"}),
+Edits == [metric |-> Cardinality({i \in 1..Len(solves) : solves[i].edit \in {"metric", "step"}}),
           lmi |-> Cardinality({i \in 1..Len(solves) : solves[i].edit = "lmi"}),
           fcons |-> Cardinality({i \in 1..Len(solves) : solves[i].edit = "fcons"})]
 SolveOpts == [wrapper : Wrappers, mode : {"dual", "primal"}, heur : {"none", "trace", "logdet1", "logdet2"},
-              edit : {"none", "init", "metric", "lmi", "block", "tsample", "fcons", "infeasible", "feasible-again"}, verbose : {0, 1}]
+              edit : {"none", "init", "metric", "lmi", "block", "tsample", "fcons", "step", "infeasible", "feasible-again"}, verbose : {0, 1}]
 Infeasible(sv) == Cardinality({i \in 1..Len(sv) : sv[i].edit = "infeasible"}) > Cardinality({i \in 1..Len(sv) : sv[i].edit = "feasible-again"})
 Solve ==
   /\ Len(solves) < MaxSolves
@@ -91,6 +91,7 @@ Solve ==
        /\ (o.edit # "none" => Len(solves) >= 1)                      \* edits happen between solves
        /\ (o.edit = "feasible-again" => Infeasible(solves))
        /\ (o.edit = "infeasible" => ~Infeasible(solves))
+       /\ (o.edit = "step" => \A i \in 1..Len(solves) : solves[i].edit # "step")      \* one more step of the method, new metric
        /\ (o.edit = "fcons" => \A i \in 1..Len(solves) : solves[i].edit # "fcons")
        /\ (o.edit = "tsample" => prog.cls = 8 /\ \A i \in 1..Len(solves) : solves[i].edit # "tsample")   \* sample the adjoint once more
        /\ (o.edit = "block" => prog.part # 0 /\ \A i \in 1..Len(solves) : solves[i].edit # "block")   \* decompose one more point
@@ -101,7 +102,7 @@ Solve ==
               cl == IF DevF3 THEN nClassLmi + ClassLmis(prog.cls) ELSE ClassLmis(prog.cls)
               nb == Cardinality({i \in 1..Len(sv) : sv[i].edit = "block"})
               pr == IF prog.part = 0 THEN 0 ELSE IF DevF4 THEN nPartRows + 5 + 5 * nb ELSE 5 + 5 * nb
-              ed == [metric |-> Cardinality({i \in 1..Len(sv) : sv[i].edit = "metric"}),
+              ed == [metric |-> Cardinality({i \in 1..Len(sv) : sv[i].edit \in {"metric", "step"}}),
                      lmi |-> Cardinality({i \in 1..Len(sv) : sv[i].edit = "lmi"}),
                      fcons |-> Cardinality({i \in 1..Len(sv) : sv[i].edit = "fcons"})]
               s == SentList(prog, ed, cl, pr) \o (IF Infeasible(sv) THEN <<Sc("pep")>> ELSE <<>>)
